@@ -62,7 +62,7 @@ static const struct tokdef MENU[] = {
 #endif
 #define ABSENT 255
 uint8_t cx_ch[6], cx_v[6][6], cx_drop = DROP, cx_cs[3], cx_nochk, cx_perm = PERM, cx_accept, cx_exc, cx_gcount;
-uint8_t cx_msg[MAXMSG]; uint32_t cx_len, cx_sum; uint8_t cx_conform, cx_order_ok, cx_wrap, cx_autodup, cx_gcount_ok;
+uint8_t cx_msg[MAXMSG]; uint32_t cx_len, cx_sum; uint8_t cx_conform, cx_order_ok, cx_wrap, cx_autodup, cx_gcount_ok; uint32_t cx_ulen[3], cx_uwant;
 static int nsym;
 static void tok_const(const char *tag, int tl, uint32_t num, const char *val, int vl, int on)
 {
@@ -75,7 +75,7 @@ static void tok_const(const char *tag, int tl, uint32_t num, const char *val, in
    split: the symbolic choice cx_ch[slot] is compared with every menu index in turn and the decoder is run once per
    combination with that index as a constant (the symbolic executor then follows the decoder's control flow on concrete
    tags and concrete offsets; all combinations are covered, the values, the checksum and the flags stay symbolic) */
-static uint8_t SEL[6];
+static uint8_t SEL[6], GSEL;
 static void tok_sym(int on)
 {
   uint8_t v[7] = { 0 }, t[5] = { 0 }; int m = SEL[nsym]; uint8_t L = MENU[m].len;
@@ -95,7 +95,7 @@ static int run(void)
   tok_const("49", 2, 49, "a", 1, DROP != 1); tok_const("56", 2, 56, "b", 1, DROP != 2); tok_const("34", 2, 34, "1", 1, DROP != 3); tok_const("52", 2, 52, "t", 1, DROP != 4);
 #if NG > 0
   int gtok = TK_n;
-  { uint8_t gc = nondet_u8(); VF_ASSUME(gc >= '0' && gc <= '0' + NG); cx_gcount = gc; uint8_t t[5] = { '3', '8', '4', 0, 0 }, v[7] = { gc, 0 }; TK_add(1, 384, t, 3, v, 1, 6); }
+  { uint8_t gc = (uint8_t)('0' + GSEL); uint8_t t[5] = { '3', '8', '4', 0, 0 }, v[7] = { gc, 0 }; TK_add(1, 384, t, 3, v, 1, 6); }     /* count digit: constant inside this run (case split in main) */
   for (int g = 0; g < NG; g++) tok_sym((GPRES >> g) & 1);
 #else
   tok_sym((PRES >> 1) & 1);
@@ -119,7 +119,7 @@ static int run(void)
   int conform = 1, order_ok = 1, wrap = 0, autodup = 0, region = 0, regw = 0, nexp = 0, gcount_ok = 1;
   uint8_t seen_h[VF_N_HDR] = { 0 }, seen_b[VF_N_BODY] = { 0 }, seen_t[VF_N_TRL] = { 0 };
   for (int i = 0; i < VF_N_HDR; i++) if (vf_hdr_traits[i].fnum == 8 || vf_hdr_traits[i].fnum == 9 || vf_hdr_traits[i].fnum == 35) seen_h[i] = 1;   /* the preamble */
-  uint8_t E_comp[NTOK]; int E_tok[NTOK];
+  uint8_t E_comp[NTOK]; int E_tok[NTOK]; int U_tok[NTOK]; int nunk = 0;
   int ing = 0, nelem = 0, elem_has1 = 0, elem_has2 = 0;      /* inside the repeating group: element bookkeeping */
   for (int k = first; k < last; k++) if (TK_on[k]) {
     uint32_t num = TK_num[k]; uint32_t w = num & 0xffff;
@@ -138,6 +138,9 @@ static int run(void)
 #endif
     int h = in_tab(vf_hdr_traits, VF_N_HDR, num), b = in_tab(vf_body_traits, VF_N_BODY, num), t = in_tab(vf_trl_traits, VF_N_TRL, num) && num != 10;
     int r = h ? 0 : b ? 1 : t ? 2 : -1;
+#if PERM == 1
+    if (r < 0) { U_tok[nunk++] = k; continue; }      /* permissive mode: a tag of no component of this message is an unknown token; the rest must conform */
+#endif
     if (r < 0 || r < region) conform = 0; else region = r;
     /* the same with tags reduced mod 65536 (what the decoder's unsigned short sees): used only by the known-finding assumptions */
     { int hw = in_tab(vf_hdr_traits, VF_N_HDR, w), bw = in_tab(vf_body_traits, VF_N_BODY, w), tw = in_tab(vf_trl_traits, VF_N_TRL, w) && w != 10;
@@ -176,10 +179,6 @@ static int run(void)
   VF_ASSERT(!W_pool_exhausted && !W_rec_overflow && !TK_bad, "harness pools large enough, tokenizer cut consistent");
   if (!thrown) {
     VF_ASSERT(m == &W_msg && W_msg_created == 1, "C04: the factory returns the message it created for MsgType A");
-#if PERM == 0
-    VF_ASSERT(nochk || cs_ok, "C04: accepted only with a correct checksum");
-    VF_ASSERT(conform, "C04: accepted only if every tag is legal where it appears, nothing repeats, group elements start with field #1 and all mandatory fields are present");
-    VF_ASSERT(gcount_ok, "C04: accepted only if the group count equals the number of elements");
     int same = W_nrec == nexp;
     for (int j = 0; j < NTOK; j++) if (j < nexp && j < W_nrec) {
       int k = E_tok[j]; struct W_rec_s *r = &W_rec[j];
@@ -187,14 +186,24 @@ static int run(void)
       for (int q = 0; q < 6; q++) if (q < TK_vlen[k] && r->val[q] != TK_val[k][q]) same = 0;
       if (j > 0 && W_rec[j - 1].comp == r->comp && W_rec[j - 1].pos >= r->pos) same = 0;
     }
+#if PERM == 0
+    VF_ASSERT(nochk || cs_ok, "C04: accepted only with a correct checksum");
+    VF_ASSERT(conform, "C04: accepted only if every tag is legal where it appears, nothing repeats, group elements start with field #1 and all mandatory fields are present");
+    VF_ASSERT(gcount_ok, "C04: accepted only if the group count equals the number of elements");
     VF_ASSERT(same, "C04: an accepted message retains every token: same component, tag and value text, in order");
     VF_ASSERT(vf_body_length(&W_hdr) == 12 && vf_msg_type(&W_hdr)[0] == 'A' && vf_msg_type(&W_hdr)[1] == 0, "C04: BodyLength and MsgType of the preamble are stored");
     if (!nochk) { uint8_t *cs = vf_check_sum(&W_trl); VF_ASSERT(cs[0] == c0 && cs[1] == c1 && cs[2] == c2 && cs[3] == 0, "C04: CheckSum text is stored"); }
+#endif
+#if PERM == 1
+#include "C05_perm.inc"
 #endif
 #if DROP == 0
     VF_REACH();
 #endif
   } else {
+#if PERM == 1
+    VF_ASSERT(!(conform && (nochk || cs_ok)), "C05: a message whose only deviation is the presence of unknown tags is accepted in permissive mode");
+#endif
     VF_ASSERT(kind >= 0, "C04: a rejected message raises one of the decoder's documented exceptions");
 #if PERM == 0
     VF_ASSERT(!(conform && gcount_ok && (nochk || cs_ok)), "C04: a conforming message with a correct checksum is accepted");
@@ -203,9 +212,6 @@ static int run(void)
     if (kind == X_MissingMandatoryField) VF_REACH();        /* a mandatory token is left out: rejection is the reachable end */
 #endif
   }
-#if PERM == 1
-#include "C05_perm.inc"
-#endif
   return 0;
 }
 /* slot s (in message order: X0, then X1 or G0.., then X2..) -> exists?, menu mask */
@@ -233,6 +239,10 @@ int main(void)
     cx_ch[s] = nondet_u8(); VF_ASSUME(cx_ch[s] < NMENU);
     for (int j = 0; j < 6; j++) { cx_v[s][j] = nondet_u8(); VF_ASSUME(cx_v[s][j] != SOH && cx_v[s][j] != 0); }   /* string values: no separator, no NUL (C06 covers raw data) */
   }
+#if NG > 0
+  cx_gcount = nondet_u8(); VF_ASSUME(cx_gcount >= '0' && cx_gcount <= '0' + NG);
+  for (GSEL = 0; GSEL <= NG; GSEL++) if (cx_gcount == '0' + GSEL)
+#endif
   LEVEL(0) LEVEL(1) LEVEL(2) LEVEL(3) LEVEL(4) LEVEL(5) { return run(); }      /* one concrete-tag run per combination; each run ends the program */
   return 0;
 }
